@@ -13,12 +13,46 @@ Theorem parent_across_fragments : forall frs fr n,
   parent_of frs (nh n) = glued_parent frs n.
 Proof. exact parent_of_glue. Qed.
 Print Assumptions parent_across_fragments.
+(* hypotheses satisfiable, on the case the theorem is about: the root (handle 6, id 20) of the second fragment of
+   GraphP.d_forest, whose only placeholder is element 3 of the first fragment; its glued parent is element 1 *)
+Definition d_root2 : node := mkNode 6 None (Some 100) [20] [20] None.
+Example parent_across_fragments_hyps_sat :
+  FragsOK d_forest /\ GlobalHandles d_forest /\ In d2_frag d_forest /\ In d_root2 (fnodes d2_frag) /\
+  UniquePlaceholder d_forest d_root2 /\ npar d_root2 = None /\ glued_parent d_forest d_root2 = Some 1.
+Proof.
+  split; [exact d_forest_ok|]. split; [exact d_forest_handles|]. split; [right; now left|]. split; [now left|].
+  split; [|split; reflexivity].
+  intros p1 p2 H1 H2 P1 P2. cbn in H1, H2.
+  destruct H1 as [<-|[<-|[<-|[<-|[<-|[]]]]]]; try discriminate P1;
+  destruct H2 as [<-|[<-|[<-|[<-|[<-|[]]]]]]; try discriminate P2; reflexivity.
+Qed.
 
 (* 2. hence whole ancestor chains (parent, layer, search(below=...)) coincide *)
+(* by definition of ancestors_fuel / glued_ancestors_fuel: both iterate a parent function with the same fuel, so
+   this only says that the iteration respects pointwise equality of the parent functions; the content is in
+   parent_across_fragments, which supplies the hypothesis element by element *)
 Theorem ancestors_across_fragments : forall frs gp, (forall h, parent_of frs h = gp h) ->
   forall fuel h, ancestors_fuel fuel frs h = glued_ancestors_fuel fuel gp h.
 Proof. exact ancestors_glue. Qed.
 Print Assumptions ancestors_across_fragments.
+(* hypothesis satisfiable with a parent function written down independently (the parent table of the glued tree of
+   GraphP.d_forest: 2,3 -> 1; 6 -> 1 through the placeholder 3; 7 -> 6), for EVERY handle *)
+Definition d_gp (h : Z) : option Z :=
+  if h =? 2 then Some 1 else if h =? 3 then Some 1 else if h =? 6 then Some 1 else if h =? 7 then Some 6 else None.
+Example ancestors_across_fragments_hyps_sat :
+  (forall h, parent_of d_forest h = d_gp h) /\ ancestors d_forest 7 = [6; 1].
+Proof.
+  split; [|reflexivity]. intro h. unfold d_gp.
+  destruct (h =? 2) eqn:E2; [apply Z.eqb_eq in E2; subst; reflexivity|].
+  destruct (h =? 3) eqn:E3; [apply Z.eqb_eq in E3; subst; reflexivity|].
+  destruct (h =? 6) eqn:E6; [apply Z.eqb_eq in E6; subst; reflexivity|].
+  destruct (h =? 7) eqn:E7; [apply Z.eqb_eq in E7; subst; reflexivity|].
+  destruct (h =? 1) eqn:E1; [apply Z.eqb_eq in E1; subst; reflexivity|].
+  apply Z.eqb_neq in E1, E2, E3, E6, E7.
+  unfold parent_of, d_forest. cbn [find_in_frags].
+  rewrite !find_node_none; [reflexivity| |];
+    intros n Hn; cbn in Hn; repeat (destruct Hn as [<-|Hn]; [cbn; intro; subst h; contradiction|]); destruct Hn.
+Qed.
 
 (* 3. lookups and type searches are layout independent: they equal scans of the node lists,
       wherever the nodes live (C03's theorems, restated for a forest) *)
@@ -28,6 +62,8 @@ Print Assumptions search_layout_independent.
 Theorem lookup_layout_independent : forall frs u h, FragsOK frs -> (In h (matches frs u) <-> In h (scan_uuid frs u)).
 Proof. exact matches_exact. Qed.
 Print Assumptions lookup_layout_independent.
+Example layout_independent_hyps_sat : FragsOK d_forest /\ search d_forest [100; 102] <> [] /\ matches d_forest 20 = [6].
+Proof. split; [exact d_forest_ok|split; [discriminate|reflexivity]]. Qed.
 
 (* 4. the uniqueness hypothesis is needed: if a fragment consulted earlier (the .aird, whose
       diagram elements reference the same id) also knows the id, the index-based search returns
